@@ -305,6 +305,19 @@ def gen_big_oracle_only(rng, tier, kind):
             lines.append("bgraph k " + gen.hexes(z))
             lines.append("bgraph b " + gen.hexes(z))
         out.append(("ob_%s%d" % (kind, k), lines))
+    # two rasters of more than 65536 nodes: indices, labels and counters narrowed to 16 bits
+    for k in range(2):
+        g = gen.Grid("raster", rows=258, cols=260, dy=1.0, dx=1.0, conn=rng.choice(["queen", "rook"]),
+                     borders=["v", "c", "c", "v"], cache=bool(k), ov=[])
+        z = gen.elevation(rng, g, "random")
+        ops = ["single"] if kind == "bgraph" else rng.choice([["single", "mst:k:carve"], ["pflood", "single"], ["single", "mst:b:basic"]])
+        lines = [g.line(), "graph " + " ".join(ops), "update " + gen.hexes(z)]
+        if kind == "bgraph":
+            lines.append("bgraph k " + gen.hexes(z))
+            lines.append("bgraph b " + gen.hexes(z))
+        else:
+            lines.append("basins")
+        out.append(("ob_%shuge%d" % (kind, k), lines))
     return out
 
 
